@@ -22,7 +22,9 @@ for pf in /verif/benign/$B/patch*.diff; do
     for p in $CHECKS; do
       rc=$(cat $T/$p.rc); [ "$rc" = "0" ] || { alarms="$alarms $p(rc=$rc:$(grep '^  rule' $T/$p.log | awk '{print $2}' | sort -u | tr '\n' ','))"; cp $T/$p.log /tmp/bp-$B-$k-$p.log; }
     done
-    if [ -z "$alarms" ]; then echo "$B/$k: silent"; else echo "$B/$k: ALARM$alarms"; fi
+    if [ -z "$alarms" ]; then echo "$B/$k: silent";
+    elif python3 /verif/selftest/known_incomplete.py "$B/$k" "$alarms"; then echo "$B/$k: KNOWN-INCOMPLETE$alarms";
+    else echo "$B/$k: ALARM$alarms"; fi
     rm -rf $E $T; git -C /repo worktree remove --force $WT >/dev/null 2>&1
     rm -rf $ROOT/.cache/$(python3 -c "import hashlib,os;print(hashlib.sha256(os.path.abspath('$WT').encode()).hexdigest()[:8])")
   ) &
